@@ -12,33 +12,38 @@ def showOut : Out → String
   | .unit => "ok"
   | .num n => s!"{n}"
 
-def step (st : Option Rb) (ws : List String) : Option Rb × List String :=
+def step (st : Option RbP) (ws : List String) : Option RbP × List String :=
   match st, ws with
   | _, ["open", s, flags, page] =>
     match s.toNat?, flags.toNat?, page.toNat? with
     | some s, some f, some pg =>
       if pg = 0 then (st, ["bad-op"]) else
       let r := Rb.open s pg (f / 2 % 2 = 1) (f / 16 % 2 = 0)
-      (some r, [s!"ok {r.W}"])
+      (some ⟨r, none⟩, [s!"ok {r.W}"])
     | _, _, _ => (st, ["bad-op"])
-  | some r, ["ptrs"] => (st, [s!"{r.rp} {r.wp}"])
-  | some r, ["used"] => (st, [s!"{r.spaceUsed}"])
-  | some r, ["sem"] => (st, [match r.sem with | none => "none" | some n => s!"{n}"])
-  | some r, _ =>
-    let op? : Option Op := match ws with
-      | ["write", h] => (parseHex h).map Op.write
-      | ["read", c] => c.toNat?.map Op.read
-      | ["peek"] => some .peek
-      | ["reclaim"] => some .reclaim
-      | ["free"] => some .free
+  | some s, ["ptrs"] => (st, [s!"{s.rb.rp} {s.rb.wp}"])
+  | some s, ["used"] => (st, [s!"{s.rb.spaceUsed}"])
+  | some s, ["sem"] => (st, [match s.rb.sem with | none => "none" | some n => s!"{n}"])
+  | some s, _ =>
+    let op? : Option POp := match ws with
+      | ["write", h] => (parseHex h).map (fun d => POp.base (Op.write d))
+      | ["alloc", n] => n.toNat?.map POp.alloc
+      | ["commit", h] => (parseHex h).map POp.commit
+      | ["read", c] => c.toNat?.map (fun c => POp.base (Op.read c))
+      | ["peek"] => some (.base .peek)
+      | ["reclaim"] => some (.base .reclaim)
+      | ["free"] => some (.base .free)
       | _ => none
     match op? with
     | none => (st, ["bad-op"])
-    | some op => let (r', o) := r.step op; (some r', [showOut o])
+    | some op =>
+      match s.step op with
+      | none => (st, ["bad-op"])
+      | some (s', o) => (some s', [showOut o])
   | none, _ => (st, ["bad-op"])
 
 def main (_args : List String) : IO UInt32 := do
-  lineLoop (none : Option Rb) step
+  lineLoop (none : Option RbP) step
   return 0
 
 end QbVerif.Driver.Ring
